@@ -163,6 +163,49 @@ CLAIMED = {
              "scripted scenarios and seeded random schedules; all runs are judged by TLC against specs/GThreadTrace.tla.",
         design_ref="DESIGN.md 4 C13, 9",
         technique="TLA+ model checking (safety + liveness) of the threaded worker + TLC trace validation of the real ThreadWorker.run() under scheduled interleavings"),
+    "C03": dict(
+        text="TLC checks specs/Arbiter.tla (the master loop one action per code segment between two system calls - Fork and "
+             "Assign separate, the SIGCHLD handler enabled between any two master actions incl. inside stop() - over a kernel "
+             "model with process table, heartbeats and pending signals): invariants NoUntrackedChild, NoZombieAtRest, "
+             "TargetIsRequested, RetireIsOldest, KillOnlyChildren ..., liveness Converges, BootFailureHalts under fairness with "
+             "fault and signal budgets. The REAL Arbiter.run() runs in-process on a simulated kernel (fork/kill/waitpid/select/"
+             "time/signal replaced inside gunicorn.arbiter only; real WorkerTmp heartbeat files in virtual time); TLC -simulate "
+             "behaviours are replayed (projected state compared after every master operation), explicit dangerous windows "
+             "and seeded random schedules are recorded; every run is judged by TLC against specs/ArbiterTrace.tla.",
+        design_ref="DESIGN.md 4 C03, 9",
+        technique="TLA+ model checking (safety + liveness) of the master loop with an asynchronous SIGCHLD handler + TLC trace validation of the real Arbiter.run() on a simulated kernel"),
+    "C04": dict(
+        text="Master side: TLC on specs/Arbiter.tla (stop/halt path: TERM is graceful, KILL only after the deadline, no worker "
+             "survives, listeners closed, pid file and unix socket removed, exit status 0, ShutdownCompletes) and the real "
+             "Arbiter.run() on the simulated kernel with TERM/INT/QUIT injected at every master operation, judged by "
+             "specs/ArbiterTrace.tla. Worker / client side: real gunicorn processes of sync, gthread, gevent (thorough: "
+             "eventlet) with clients parked in each phase of a connection's life (idle, head partly received - rest arriving "
+             "before / after the listener is closed -, application running, response partly written, keep-alive idle), "
+             "applications that finish / overrun / never finish, optional TTIN+TTOU before the stop; exit status and time, "
+             "survivors, listening socket, pid and socket files read at the moment the master is gone; judged by TLC against "
+             "specs/ShutdownTrace.tla.",
+        design_ref="DESIGN.md 4 C04, 9",
+        technique="TLA+ model checking of the shutdown path + TLC trace validation of the real Arbiter on a simulated kernel and of real-process shutdowns"),
+    "C10": dict(
+        text="Master side: TLC on specs/Arbiter.tla (reload: listeners untouched when the address is unchanged, spawn before "
+             "retire, old workers only TERMed, afterwards only the new generation in the new number; HUPs interleaved with "
+             "deaths, TTIN/TTOU and SIGCHLD delivery) and the real Arbiter.reload() on the simulated kernel, judged by "
+             "specs/ArbiterTrace.tla. Worker / client side: real gunicorn processes (numeric, host-name and unix binds) under "
+             "a load of short, long and streaming requests during 1-3 HUPs that change worker count and a marker variable "
+             "(refused / cut / complete per request, old workers gone, new count, new marker); the real SyncWorker.run() loop "
+             "in-process with TERM delivered at every system-call boundary (every connection taken off the listen queue must be "
+             "answered); judged by TLC against specs/ReloadTrace.tla.",
+        design_ref="DESIGN.md 4 C10, 9",
+        technique="TLA+ model checking of reload + TLC trace validation of the real Arbiter on a simulated kernel, of real-process reloads under load and of the real sync loop with TERM injected at every system call"),
+    "C11": dict(
+        text="Master side: TLC on specs/Arbiter.tla with explicit time (timeouts 1..3): MurderOnlyStale, AbortBeforeKill, "
+             "HungKilledInTime, HungReplaced, healthy workers never signalled; the real murder_workers / WorkerTmp pair on the "
+             "simulated kernel in virtual time, judged by specs/ArbiterTrace.tla. Worker side on real processes (--timeout 2): "
+             "blocked application, SIGSTOP, SIGABRT ignored, with and without a master that is woken several times per second; "
+             "healthy workers idle, busy with back-to-back sub-timeout requests, busy on several listeners, busy with a never "
+             "empty listen queue, for sync / gthread / gevent (thorough: eventlet); judged by TLC against specs/TimeoutTrace.tla.",
+        design_ref="DESIGN.md 4 C11, 9",
+        technique="TLA+ timed model checking of the timeout scan + TLC trace validation of the real Arbiter in virtual time and of real-process hang / healthy scenarios"),
 }
 
 NOT_YET = {
